@@ -191,6 +191,32 @@ def r2_server_task(ctx):
                       "connection future: watch sites=%d, spawned via the watched future=%d, spawn sites receiving it at all=%d, watcher is the one shut down=%s" % (len(w), len(sp), len(raw), same_g), (co, vbb))
         ok_exit, n_ex, detail = exits_only_on_close_signal(ctx.ds, co, a["loop"])
         ctx.check(R, "%s-loop-exits-only-on-close-signal" % name, ok_exit, "%d exit edge(s): %s" % (n_ex, "; ".join(detail)), (co, a["accept_bb"]))
+    # Added after adversary change C17-J (`biased;` put in front of both accept-loop select!s with the accept branch first: while connections
+    # keep arriving the close branch is never polled, so a requested shutdown is ignored under load): the select! that polls the close
+    # receiver starts at a random branch (tokio's default), or, if it is biased, polls the close receiver first
+    sel = [g for g in ctx.ds.descendants(co) if "macros/select.rs" in (g.raw.get("span") or "")]
+    n_close = 0
+    for g in sel:
+        polls = [(b, t, g.local_ty(t["args"][0]["pl"]["l"]) if t["args"] and t["args"][0].get("pl") else "") for b, t in g.live_calls(r"Future::poll$")]
+        closep = [b for b, t, ty in polls if "oneshot::Receiver" in (ty or "") or "oneshot::Receiver" in (t.get("resolved") or "")]
+        if not closep:
+            continue
+        n_close += 1
+        fair = bool(g.live_calls(r"^tokio::macros::support::thread_rng_n$"))
+        first = False
+        if not fair:
+            heads = [b for b, t in g.live_calls(r"iter::Iterator::next$")]
+            for sbb, t in g.switches():
+                d = t["discr"]
+                if d.get("k") in ("copy", "move") and not d["pl"]["p"] and g.local_ty(d["pl"]["l"]) == "u32" and len(t["targets"]) >= 2:
+                    t0 = [tg for v, tg in t["targets"] if v == 0]
+                    if t0:
+                        r0 = g.reachable(t0[0], avoid=heads + [sbb])
+                        first = all(b in r0 for b in closep) and not any(b in r0 for b, _, _ in polls if b not in closep)
+        ctx.check(R, "close-signal-is-not-starved:%s" % g.id.rsplit("::", 1)[-1], fair or first,
+                  "the select! polling the close receiver %s" % ("starts at a random branch" if fair else "is biased and polls the close receiver first" if first else
+                                                                  "is biased with another branch first: while that branch stays ready the shutdown request is never seen"), g)
+    ctx.check(R, "selects-polling-the-close-receiver", n_close >= 2, "select! poll closures of the server task that poll the close receiver: %d (one per accept loop)" % n_close, co, nontrivial=False)
     # every spawn in the task spawns a watched connection
     unw = [b for b, t in spawns if not co.slice(t["args"][0]).has_call(WATCH)]
     ctx.check(R, "every-spawn-is-watched", not unw and len(spawns) >= 2, "spawn sites in the server task: %d, not fed by graceful.watch: %d" % (len(spawns), len(unw)), co)
@@ -400,6 +426,12 @@ def r5_listener_owned(ctx):
     binds = [(f.id) for f, b, t in callers(ctx.ds, r"TcpListener::(bind|from_std)$") if not f.id.startswith("test_util")]
     ctx.check(R, "listener-created-only-in-new_internal", bool(binds) and all(x.endswith("::new_internal") for x in binds), "TcpListener::bind/from_std callers: %s" % sorted(set(binds)), None)
     leaks = [(f.id, t["callee"]) for f, b, t in callers(ctx.ds, LEAK) if not f.id.startswith("test_util") and (f.id, t["callee"]) not in LEAK_REVIEWED]
+    # Added after adversary change C17-I (SO_LINGER set to zero on every accepted socket "to stay out of TIME_WAIT": when hyper closes a
+    # connection at graceful shutdown the kernel then discards what is still queued, so an in-flight response reaches its connected
+    # client truncated and reset while close() reports Ok): the crate never asks for an abortive close
+    lsites = [(f, b, t["callee"]) for f, b, t in callers(ctx.ds, r"::set_linger$|::set_linger_sec$") if not f.id.startswith("test_util")]
+    ctx.check(R, "no-abortive-close", not lsites, "SO_LINGER is set (a zero or short linger turns the close of a served connection into a reset that drops unsent response bytes) at: %s"
+              % ([(f.id, c) for f, b, c in lsites] or "no site"), (lsites[0][0], lsites[0][1]) if lsites else None, nontrivial=False)
     ctx.check(R, "no-leak-api-in-crate", not leaks, "mem::forget / Box::leak / into_raw_fd / ManuallyDrop::new / into_std / transmute calls: %s" % leaks, None)
 
 
@@ -539,6 +571,13 @@ SELFTEST = [
     {"name": "close-swallows-join-error", "kind": "mutant", "why": "close() reports success although the server task failed",
      "edits": [(_S, "        mem::drop(self.app_state);\n\n        self.join_future.await\n", "        mem::drop(self.app_state);\n\n        match self.join_future.await {\n            Ok(()) => Ok(()),\n            Err(_message) => Ok(()),\n        }\n")],
      "expect": ["C17.R1"]},
+    {"name": "biased-select-close-first", "kind": "benign", "why": "the property holds: a biased select! that polls the close receiver first sees a requested shutdown on the next iteration however busy the listener is",
+     "edits": [(_S, _SEL_OLD, "                None => loop {\n                    tokio::select! {\n                        biased;\n                        _ = &mut rx => {\n                            info!(log, \"beginning graceful shutdown\");\n"
+                "                            break;\n                        }\n                        (sock, remote_addr) = http_acceptor.accept() => {\n"),
+               (_S, _SEL_TAIL_OLD, "                            tokio::spawn(fut);\n                        },\n                    }\n                },")]},
+    {"name": "biased-select-accept-first", "kind": "mutant", "why": "a biased select! with the accept branch first never polls the close receiver while connections keep arriving: a requested shutdown is ignored under load",
+     "edits": [(_S, _SEL_OLD, "                None => loop {\n                    tokio::select! {\n                        biased;\n                        (sock, remote_addr) = http_acceptor.accept() => {\n")],
+     "expect": ["C17.R2"]},
     {"name": "select-classifies-then-let-else-breaks", "kind": "benign", "why": "behaviour-preserving: the select! only turns the event into an Option (Some(connection) / None for the close signal); a let-else on it logs and breaks; the connection is served at loop-body level (the exit is decided under the hypotheses `the select resolved to branch i`)",
      "edits": [(_S, _SEL_OLD, _sel_new("Some(accepted)")), (_S, _SEL_TAIL_OLD, _SEL_TAIL_NEW)]},
     {"name": "select-classifies-connection-as-close", "kind": "mutant", "why": "same spelling, but the accept branch yields None for some peers: a connection from such a peer ends the accept loop although nobody asked the server to close",
